@@ -125,7 +125,7 @@ class TraitSet(set):
         added : set
             The new items that have been added to the set.
         """
-        for notifier in self.notifiers:
+        for notifier in self.notifiers[:]:
             notifier(self, removed, added)
 
     # -- set interface -------------------------------------------------------
